@@ -1,15 +1,89 @@
 package engine_test
 
 import (
+	"bufio"
+	"bytes"
 	"fmt"
+	"os"
+	"path/filepath"
 	"testing"
 	"time"
 
 	"github.com/sanonone/kektordb/internal/zzverif/vexec"
 	"github.com/sanonone/kektordb/internal/zzverif/vkit"
+	"github.com/sanonone/kektordb/pkg/core/distance"
 	"github.com/sanonone/kektordb/pkg/engine"
+	"github.com/sanonone/kektordb/pkg/persistence"
 	"github.com/sanonone/kektordb/pkg/verifhook"
 )
+
+// c02ProbeD69: an int8 index that the snapshot holds untrained (no vector yet), vectors in the
+// log, and the VQUANT record of the auto-trained range lost in a torn tail.
+func c02ProbeD69(ctx *vkit.Ctx) {
+	ctx.Probe("D69", func(cs *vkit.Case) string {
+		dir := cs.SubDir("data")
+		e, err := engine.Open(vexec.Options(dir))
+		if err != nil {
+			return fmt.Sprintf("open: %v", err)
+		}
+		if err := e.VCreate("q", distance.Cosine, 4, 8, distance.Int8, "", nil, nil, nil); err != nil {
+			e.Close()
+			return fmt.Sprintf("VCreate: %v", err)
+		}
+		e.SaveSnapshot() // the snapshot holds the index without a vector: quantizer untrained
+		e.VAdd("q", "a", []float32{0.0001, 0.0002, 0.0001, 0.0003}, nil)
+		e.AOF.Flush()
+		e.Close()
+		// process death with the log torn inside the record that follows the first VADD (the
+		// VQUANT record of the range the add trained): keep the frames up to and including the VADD
+		logPath := filepath.Join(dir, "kektordb.aof")
+		f, err := os.Open(logPath)
+		if err != nil {
+			return fmt.Sprintf("harness: %v", err)
+		}
+		r := bufio.NewReader(f)
+		keep := int64(0)
+		for {
+			payload, n, err := persistence.ReadFrame(r)
+			if err != nil {
+				break
+			}
+			keep += int64(n)
+			if bytes.Contains(payload, []byte("VADD")) {
+				break
+			}
+		}
+		f.Close()
+		if keep == 0 {
+			return "harness: no VADD frame in the log"
+		}
+		cs.Op("log cut after the VADD record (%d bytes) + 5 bytes of the next record", keep)
+		if err := os.Truncate(logPath, keep+5); err != nil {
+			return fmt.Sprintf("harness: %v", err)
+		}
+		e, err = engine.Open(vexec.Options(dir))
+		if err != nil {
+			return fmt.Sprintf("Open of the torn directory: %v", err)
+		}
+		defer func() { e.Close() }()
+		if err := e.VAdd("q", "b", []float32{0.5, 0.5, 0.5, 0.5}, nil); err != nil {
+			return fmt.Sprintf("VAdd(b) on the recovered engine: %v", err)
+		}
+		if err := e.VDelete("q", "a"); err != nil {
+			return fmt.Sprintf("VDelete(a) on the recovered engine: %v", err)
+		}
+		time.Sleep(2 * time.Millisecond)
+		u := vexec.Universe{Indexes: []string{"q"}, IDs: []string{"a", "b"}}
+		e2, msg := c01cRestartSame(e, dir, u)
+		if e2 != nil {
+			e = e2
+		}
+		if msg != "" {
+			return "int8 index held untrained by the snapshot, VQUANT record lost in a torn tail, recovered, VAdd(b), VDelete(a), clean restart: " + msg
+		}
+		return ""
+	})
+}
 
 // C02 (group covered) — "... its last durable write (flushed, or covered by a completed
 // snapshot or compaction)": writes acknowledged WHILE a snapshot / compaction is running are
@@ -19,6 +93,7 @@ import (
 // one of those writes, and everything acknowledged before the operation, must be recovered.
 func TestVerifC02Covered(t *testing.T) {
 	vkit.Run(t, "C02", func(ctx *vkit.Ctx) {
+		c02ProbeD69(ctx)
 		type row struct{ admin, phase string }
 		var rows []row
 		for _, a := range []string{"snapshot", "rewrite"} {
